@@ -260,6 +260,12 @@ def rule_D2(ctx, rule: str = "D2", only: Optional[Set[str]] = None) -> None:
     dparams = [a.arg for a in dump.args.args]
     n_ob = 0
     for ename, (fn, inl) in emitters.items():
+        if ename == "__len__":
+            rets = [n for n in ast.walk(fn) if isinstance(n, ast.Return) and n.value is not None]
+            if len(rets) == 1 and ast.unparse(rets[0].value) in ("len(bytes(self))", "len(self.__bytes__())"):
+                ctx.proved(rule, "__len__:defined-through-dump", mod.loc(fn), "the sizer delegates to the writer; its presence table is dump's")
+                n_ob += 40
+                continue
         delimit_off: Dict[Sym, bool] = {}
         if ename == "dump" and len(dparams) > 2:
             delimit_off[("op", "==", N(dparams[2]), C(mod.consts.get("SIZE_DELIMITED")))] = False
